@@ -1526,6 +1526,10 @@ impl ProtocolState {
             return None;
         }
 
+        if self.current_operation.is_some() {
+            return Some(self.current_time);
+        }
+
         if !self.high_priority_operation_queue.is_empty() {
             return Some(self.current_time);
         }
